@@ -591,6 +591,14 @@ struct GenCtx {
     pool: Vec<DealSpec>,
     /// sequences that run the cron over the whole deal life (costly: one loop turn per epoch)
     cron_heavy: bool,
+    /// scripted prelude "republished proposal" (0 = off): publish X, activate it, settle it before
+    /// its start (its pending entry goes), publish the identical X again (deal B, never activated),
+    /// terminate A's sector, pass the start epoch, settle B (time-out: slash and burn)
+    script: u8,
+    script_spec: Option<DealSpec>,
+    script_a: Option<u64>,
+    script_done: bool,
+    script_tries: u8,
 }
 
 fn spec_req(d: &DealSpec) -> (BigInt, BigInt) {
@@ -727,6 +735,57 @@ fn gen_op(r: &mut Rng, env: &Env, v: &View, ctx: &mut GenCtx) -> Op {
         ctx.planned = None;
         for d in &batch { if ctx.pool.len() < 12 { ctx.pool.push(d.clone()); } }
         return Op::Publish { caller, deals: batch };
+    }
+    if ctx.script > 0 {
+        let m = &env.miners[0];
+        let mid = m.id.id().unwrap();
+        match ctx.script {
+            1 | 4 => {
+                let x = ctx.script_spec.clone().unwrap_or_else(|| DealSpec {
+                    client: 0, client_key_form: false, provider: 0, provider_robust: false,
+                    start: epoch + 300, end: epoch + 300 + DUR_MIN, price: 1, cc: 5, pc: PC_BASE + 1,
+                    label: 2, sig: 0, bad_static: 0,
+                });
+                ctx.script_spec = Some(x.clone());
+                ctx.planned = Some((m.worker, vec![x]));
+                ctx.script += 1;
+                return gen_op(r, env, v, ctx);
+            }
+            2 | 5 => {
+                let x = ctx.script_spec.clone().unwrap();
+                let found = v.deals.iter().filter(|(i, d)| d.provider == mid && d.start == x.start && d.end == x.end && d.state.is_none() && Some(**i) != ctx.script_a).map(|(i, _)| *i).max();
+                match (ctx.script, found) {
+                    (2, Some(a)) => {
+                        ctx.script_a = Some(a);
+                        ctx.script = 3;
+                        return Op::Activate { caller: m.id, sectors: vec![(4, x.end + 100, vec![a])] };
+                    }
+                    (5, Some(_)) => {
+                        ctx.script = 6;
+                        return Op::Terminate { caller: m.id, sectors: vec![4] };
+                    }
+                    _ => {
+                        // the publish did not go through (funding boundary, injected failure): try again
+                        ctx.script_tries += 1;
+                        if ctx.script_tries > 6 { ctx.script = 0; } else { ctx.script -= 1; return gen_op(r, env, v, ctx); }
+                    }
+                }
+            }
+            3 => {
+                ctx.script = 4;
+                return Op::Settle { caller: env.stranger, ids: vec![ctx.script_a.unwrap()] };
+            }
+            6 => {
+                ctx.script = 7;
+                return Op::Advance { to: ctx.script_spec.as_ref().unwrap().start + 1 };
+            }
+            _ => {
+                ctx.script = 0;
+                let x = ctx.script_spec.clone().unwrap();
+                let ids: Vec<u64> = v.deals.iter().filter(|(_, d)| d.provider == mid && d.start == x.start && d.end == x.end && d.state.is_none()).map(|(i, _)| *i).collect();
+                if !ids.is_empty() { ctx.script_done = true; return Op::Settle { caller: env.stranger, ids }; }
+            }
+        }
     }
     let parties: Vec<Address> = env.clients.iter().map(|c| c.0).chain(env.miners.iter().map(|m| m.id)).collect();
     let k = r.below(100);
@@ -1284,7 +1343,7 @@ pub fn run_n(cfg: &RunCfg, which: &str, fixed_seqs: Option<u64>) -> Report {
         let env = setup();
         let min_pc = big(&min_provider_collateral(&env));
         assert!(BigInt::from(PC_BASE) >= &min_pc * 2, "PC_BASE below the provider collateral bound {}", min_pc);
-        let mut ctx = GenCtx { cron_heavy: r.chance(1, 4), ..Default::default() };
+        let mut ctx = GenCtx { cron_heavy: r.chance(1, 4), script: if seq % 5 == 2 { 1 } else { 0 }, ..Default::default() };
         let mut led = Ledger::default();
         let mut lines: Vec<String> = vec!["init".to_string()];
         let mut agree = true;
@@ -1306,6 +1365,7 @@ pub fn run_n(cfg: &RunCfg, which: &str, fixed_seqs: Option<u64>) -> Report {
             step += 1;
             let before = view(&env);
             let op = if let Some(o) = queue.pop() { o } else { gen_op(&mut r, &env, &before, &mut ctx) };
+            if ctx.script_done { ctx.script_done = false; rep.branch("script-republished-proposal-timeout"); }
             let epoch = before.epoch;
             let mut b = build(&env, &op, epoch, &min_pc);
             // fault plan: now and then the plain send of the market (burn / withdrawal payout) is made to fail
@@ -1369,7 +1429,7 @@ pub fn run_n(cfg: &RunCfg, which: &str, fixed_seqs: Option<u64>) -> Report {
             ledger_update(&op, &res, &before, &after, &mut led);
             if v.is_none() {
                 v = match which {
-                    "c06" => oracle_c06(&env, &op, &res, trace, &before, &after, &bal_before),
+                    "c06" | "c01" => oracle_c06(&env, &op, &res, trace, &before, &after, &bal_before),
                     "c07" => oracle_c07(&op, &res, &before, &after, &led),
                     _ => None,
                 };
@@ -1386,7 +1446,7 @@ pub fn run_n(cfg: &RunCfg, which: &str, fixed_seqs: Option<u64>) -> Report {
                     Op::Publish { deals, .. } => {
                         published = true;
                         let new_ids: Vec<u64> = after.deals.keys().filter(|i| !before.deals.contains_key(i)).cloned().collect();
-                        if !new_ids.is_empty() && r.chance(2, 3) {
+                        if !new_ids.is_empty() && ctx.script == 0 && r.chance(2, 3) {
                             let take = new_ids.into_iter().filter(|_| r.chance(3, 4)).collect::<Vec<_>>();
                             if !take.is_empty() {
                                 queue.push(gen_activation(&mut r, &env, &after, deals[0].provider, Some(take)));
